@@ -241,7 +241,8 @@ Title=\"{}\"
             # check if frame has multiplexed signals
             multiplex = 0
             for signal in frame.signals:
-                if signal.multiplex is not None:
+                # (a multiplexer without any multiplexed signal is written like a normal signal: there is no group to write it with)
+                if type(signal.multiplex) == int:
                     multiplex = 1
 
             if multiplex == 1:
